@@ -144,7 +144,7 @@ def _run_name(d, ctx, core, ban):
     ctx.nontrivial(bool(extra) or (F >= 3 and '+' in name))
 
 
-@subcheck(SUBCHECKS, 'wrapper_names', quick=900, thorough=15000)
+@subcheck(SUBCHECKS, 'wrapper_names', quick=900, thorough=15000, fuzz=3000)
 def wrapper_names(d, ctx):
     core = d.choice(CORES + ['ch'])
     _run_name(d, ctx, core, d.bool())
@@ -190,7 +190,7 @@ def wrapper_names_exhaustive(d, ctx):
     ctx.label(name)
 
 
-@subcheck(SUBCHECKS, 'invalid_names', quick=150, thorough=1500, min_nontrivial=0.0)
+@subcheck(SUBCHECKS, 'invalid_names', quick=150, thorough=1500, fuzz=3000, min_nontrivial=0.0)
 def invalid_names(d, ctx):
     bf, bw = _mods()
     pool = ['', 'mvdr', 'gev+ban+ban', 'ban', 'pca+gev', 'rank1+gev', 'souden',
